@@ -184,7 +184,7 @@ def generate(rng, tier):
         c = e2e.make_case(g, toks, info, {"consumed"} | CORR, tags=("attached_mesh" if is_mesh else "attached_pc",))
         inner = c.oracle
 
-        def orc(hout, case, inner=inner, text=text):
+        def orc(hout, case, inner=inner, text=text, atts=atts, g=g):
             v = inner(hout, case)
             if v:
                 return v
@@ -194,6 +194,16 @@ def generate(rng, tier):
             d = r["dec"]
             if "meta" not in d or d[d.index("meta") + 1] != text:
                 return ("metadata-altered", f"metadata attached to the geometry did not survive: got {d[d.index('meta') + 1][:200] if 'meta' in d else 'none'} want {text[:200]} for `{case.op[:200]}`")
+            # attribute metadata is keyed by the attribute's unique id: the id must still name the same attribute
+            g2, _ = G.parse_geom(d, 2)
+            for u, _m in atts:
+                src = [a for a in g.atts if a.uid == u]
+                if not src:
+                    continue
+                dst = [a for a in g2.atts if a.uid == u]
+                if len(dst) != len(src) or sorted(a.att_type for a in dst) != sorted(a.att_type for a in src):
+                    return ("attribute-metadata-orphaned", f"attribute metadata keyed by unique id {u} no longer names the attribute it was attached to "
+                            f"(decoded attributes with that id: {[a.att_type for a in dst]}, original: {[a.att_type for a in src]}) for `{case.op[:200]}`")
             return None
         c.oracle = orc
         c.mtag = e2e.model_support_tag
